@@ -109,6 +109,22 @@ theorem C20_reported_bytes_printable (bytes : Bytes) (cfg : Config) (hm : 1 ≤ 
   have hq := (h2' f).mp hf
   exact ⟨by have := hq.2.1; omega, hq.2.2.1 j h1 h2⟩
 
+/-- **Address.**  The address reported with a run is `base + offset of the run` whenever that sum
+is representable in the `u32` address field … -/
+theorem C20_address (base : Nat) (f : Found) (h : base + f.start < 2 ^ 32) :
+    address base f = base + f.start := by
+  unfold address wadd32
+  exact Nat.mod_eq_of_lt h
+
+/-- … and wraps around modulo 2^32 otherwise (`wrapping_add`): for every base and run. -/
+theorem C20_address_wraps (base : Nat) (f : Found) : address base f = (base + f.start) % 2 ^ 32 := rfl
+
+/-- the hypothesis of `C20_address` is satisfiable (the repository's test: base 0x1000, run at 12)
+and necessary (base 0xFFFFFFFE, run at offset 7 is reported at address 5) -/
+example : (0x1000 + (⟨12, 10, false⟩ : Found).start < 2 ^ 32 ∧ address 0x1000 ⟨12, 10, false⟩ = 0x100c) ∧
+    address 0xFFFFFFFE ⟨7, 3, false⟩ = 5 := by
+  decide
+
 /-- Non-vacuity: a concrete buffer with a qualifying run (the repository's own test vector). -/
 example : enumAll #[0x1f, 0x43, 0x2d, 0x53, 0x54, 0x00, 0x80, 0x41, 0x41, 0x41, 0xff]
     ⟨3, 3, false⟩ 13 0 = .ok [⟨1, 4, true⟩, ⟨7, 3, false⟩] := by
